@@ -1,4 +1,5 @@
 import OdxVerif.Props.C02
+import OdxVerif.Proofs.FlatReencode
 /-! # C03 — decoding a PDU and re-encoding the result reproduces the PDU
     Proved tier: atomic `A_INT32` objects — every canonical raw bit pattern is interpreted as a value the
     encoder accepts and maps back to the same pattern (two's complement: all patterns; one's complement
@@ -18,6 +19,26 @@ theorem C03_reencode_partial (enc : Option Enc) (hk : int32Known enc = true) (bl
 theorem C03_negative_zero_counterexample :
     int32OfRaw (some .onec) 8 0xFF = 0 ∧ (int32Raw (some .onec) 8 0).toNat = 0 ∧
     int32OfRaw (some .sm) 8 0x80 = 0 ∧ (int32Raw (some .sm) 8 0).toNat = 0 := by decide
+
+/-- **C03, flat composite tier (pure level of the model).** A description of positioned `A_INT32` objects whose
+    claims are pairwise disjoint (`PairDisj`, a value-independent property of the description), a PDU in which all
+    objects fit (`Fits`), whose every bit is claimed by some object (`ClaimedBy` — "all bits described by
+    value-carrying parameters") and whose raw patterns are canonical (`Canon` — no negative zero): encoding the
+    values the decoder returns (`reenc` pairs every object with its decoded value) into a fresh message reproduces
+    the PDU byte for byte, with no overlap warning. `encAll` is the pure form of the model's encoder
+    (`Proofs/FlatMsg.lean`: `encodeMessage_flat`), `decVals` of its decoder. -/
+theorem C03_reencode_flat (os : List Obj) (pdu : Bytes) (hok : ∀ o ∈ os, o.ok) (hall : AllBytes pdu)
+    (hdisj : PairDisj 0 os 0) (hfit : Fits 0 pdu os 0) (hcanon : Canon 0 pdu os 0)
+    (hdesc : ∀ a, a < 8 * pdu.length → ClaimedBy 0 os 0 a)
+    (s0 : EncState) (hm : s0.msg = []) (hu : s0.used = []) (hc : s0.cursorByte = 0) (ho : s0.origin = 0) :
+    (encAll (reenc 0 pdu os 0) s0).msg = pdu ∧ (encAll (reenc 0 pdu os 0) s0).warn = s0.warn :=
+  reencode_flat os pdu hok hall hdisj hfit hcanon hdesc s0 hm hu hc ho
+
+/-- **Overlap warning ⇒ static overlap** (C02's "warning exactly when two objects claim the same bit", one
+    direction, flat tier): a description whose objects are pairwise disjoint never produces an overlap warning. -/
+theorem C03_no_warning_without_overlap (ovs : List (Obj × Int)) (s : EncState)
+    (hpd : PairDisj s.origin (ovs.map (·.1)) s.cursorByte) (hfree : Free s (ovs.map (·.1))) :
+    (encAll ovs s).warn = s.warn := encAll_nowarn ovs s hpd hfree
 
 example : canonRaw (some .onec) 8 0xFE := by simp [canonRaw]
 
